@@ -366,9 +366,10 @@ open YaraModel.ReEmit YaraModel.ReHexG YaraModel.ReAtoms in
       token        : byte | ~byte | nibble-masked byte | ~masked | ?? | '(' alternatives ')'
       tokens       : token | token (token | jump)* token          — a jump ONLY occurs between tokens, never first or last
       alternatives : tokens | alternatives '|' tokens              — so every alternative begins and ends with a token
-      piece        : tokens and jumps in any order                  — the root concatenation cut at its chaining points
+      piece        : tokens and jumps, no two jumps adjacent        — the root concatenation cut at its chaining points
     with jumps non-greedy, ordered bounds, upper bound below 65536 (inside parentheses the grammar enforces ≤ 200; every
-    larger top-level jump between two siblings is a chaining point and is cut out; see below for the one exception).
+    larger top-level jump between two siblings is a chaining point and is cut out; consecutive jumps are merged into one by
+    the grammar, so no jump directly follows a chaining point).
     For ALL ASTs of every symbol: the AST and its mirror image lie in `HexG`, and its masks are nibble masks.
     (`[0-0]` jumps are legal but only between tokens, so no alternative begins or ends with one.) -/
 theorem hexGrammar_builds_HexG (k : Kind) (r : Re) (h : Gram k r) : HexG r ∧ HexG (rev r) ∧ MaskOK r :=
@@ -380,10 +381,10 @@ open YaraModel.ReEmit YaraModel.ReHexG YaraModel.ReAtoms in
     `hexg_false`; a string whose piece fails is reported as a violation with the string): the decision procedure
     `gram .piece` is sound for the description `Gram`, hence for the hypotheses of `vm_complete_hex` /
     `hex_scan_complete_partial`; and the decidable `hexG` IS `HexG` (so `hexg_false = 0` means: no generated string left
-    the fragment).  The one family of LEGAL hex strings outside the description: two consecutive top-level jumps where the
-    first is a chaining point and the second has an upper bound ≥ 65536 (`{ 41 [300] [2-65540] 42 }`): the second jump is
-    the first child of its piece, never a chaining point, and its bound is truncated to 16 bits by the emitter — a defect
-    of the engine (notes/C02-jump-after-chaining-point-truncated.diff), not generated by the check. -/
+    the fragment).  Before the fix F73 of /repo one family of legal hex strings lay outside the description
+    (a jump with an upper bound ≥ 65536 directly after a chaining point, truncated to 16 bits by the emitter — found by this
+    tie, notes/C02-jump-after-chaining-point-truncated.diff); hex_grammar.y now merges consecutive jumps, the description
+    forbids adjacent jumps, and the generator of the check produces consecutive jumps. -/
 theorem hexG_tie_sound (r : Re) : (gram .piece r = true → HexG r ∧ HexG (rev r) ∧ MaskOK r) ∧ (hexG r = true ↔ HexG r) ∧
     (hexG (mirror r) = true ↔ HexG (rev r)) ∧ (maskOK r = true → MaskOK r) :=
   ⟨fun h => hexGrammar_builds_HexG .piece r (gram_sound r .piece h), hexG_iff r, by rw [mirror_eq_rev]; exact hexG_iff _, maskOK_sound⟩
@@ -392,6 +393,7 @@ open YaraModel.ReHexG in
 /-- instances: `41 ( 42 [0-0] 43 | ?3 44 ) [1-2] ~45` is a `tokens`; a piece may begin with a jump; an alternative may not -/
 example : gram .toks (.cat (.lit 0x41) (.cat (.alt (.cat (.lit 0x42) (.cat (.rangeAny 0 0 false) (.lit 0x43))) (.cat (.masked 0x03 0x0F) (.lit 0x44))) (.cat (.rangeAny 1 2 false) (.notLit 0x45)))) = true ∧
     gram .piece (.cat (.rangeAny 0 0 false) (.lit 0x42)) = true ∧
+    gram .piece (.cat (.rangeAny 1 2 false) (.cat (.rangeAny 3 4 false) (.lit 0x42))) = false ∧
     gram .toks (.alt (.cat (.rangeAny 0 0 false) (.lit 0x41)) (.lit 0x42)) = false ∧
     hexG (.alt (.cat (.rangeAny 0 0 false) (.lit 0x41)) (.lit 0x42)) = false := by decide
 
